@@ -45,13 +45,17 @@ type c18Case struct {
 	Decls     []psDecl   `json:"decls"`
 	Grouped   bool       `json:"grouped,omitempty"`   // the declarations share one `type ( ... )` group
 	DotImport bool       `json:"dotimport,omitempty"` // the origin package is dot-imported: `type x0 O0`
+	// WithDeepCopy: the deepcopy generator runs ahead of partialstruct in the same Execute, over a struct of the same package
+	// that holds a third.Cloner (a type with hand-written DeepCopy/DeepCopyInto); what one generator learns about a type must
+	// not leak into the other
+	WithDeepCopy bool `json:"withdeepcopy,omitempty"`
 }
 
 var psTypes = []string{
 	"int", "string", "bool", "float64", "[]string", "[]byte", "map[string]int", "*int", "*string", "*third.Inner", "third.Kind", "third.Inner", "error", "third.Iface", "any",
 	"[]third.Inner", "map[string]third.Kind", "[2]int", "int64", "uint8",
 	// containers of defined scalar types (foreign and of the origin package itself), nested containers
-	"third.Flag", "[]third.Flag", "map[string][]third.Flag", "*[]third.Flag", "[]Flag8", "map[Label]Flag8", "Label", "[]*third.Inner", "map[third.Kind]*third.Inner", "[][]byte", "[3]third.Flag",
+	"third.Flag", "[]third.Flag", "map[string][]third.Flag", "*[]third.Flag", "[]Flag8", "map[Label]Flag8", "Label", "[]*third.Inner", "map[third.Kind]*third.Inner", "[][]byte", "[3]third.Flag", "third.Cloner", "third.Cloner", "*third.Cloner",
 }
 
 var psTags = []string{
@@ -98,8 +102,8 @@ func genC18(t *rapid.T) c18Case {
 						omitted = true
 					}
 				}
-				if omitted {
-					continue
+				if omitted && rapid.IntRange(0, 2).Draw(t, "replaceomitted") != 0 {
+					continue // (otherwise: one field named by both tags - omit wins, the field is neither declared nor copied)
 				}
 				d.ReplaceField = f.Name
 				d.ReplaceWith = "X" + strings.TrimPrefix(f.Type, "O")
@@ -112,6 +116,7 @@ func genC18(t *rapid.T) c18Case {
 	}
 	c.Grouped = len(c.Decls) >= 2 && rapid.IntRange(0, 4).Draw(t, "grouped") == 0
 	c.DotImport = rapid.IntRange(0, 4).Draw(t, "dotimport") == 0
+	c.WithDeepCopy = rapid.IntRange(0, 2).Draw(t, "withdeepcopy") == 0
 	return c
 }
 
@@ -140,6 +145,29 @@ const thirdSource = `package third
 type Kind string
 
 type Flag uint8
+
+// Cloner has hand-written copy methods.
+type Cloner struct {
+	M map[string]int
+}
+
+func (in *Cloner) DeepCopy() *Cloner {
+	if in == nil {
+		return nil
+	}
+	out := new(Cloner)
+	in.DeepCopyInto(out)
+	return out
+}
+
+func (in *Cloner) DeepCopyInto(out *Cloner) {
+	if in.M != nil {
+		out.M = make(map[string]int, len(in.M))
+		for k, v := range in.M {
+			out.M[k] = v
+		}
+	}
+}
 
 type Inner struct {
 	A int
@@ -295,6 +323,9 @@ func (c c18Case) testSource() string {
 		for _, om := range d.Omit {
 			omitted[om] = true
 		}
+		if omitted[d.ReplaceField] {
+			d.ReplaceField = "" // named by an omit tag as well: omit wins, nothing of the replacement is visible
+		}
 		b.WriteString("\t{\n")
 		fmt.Fprintf(b, "\t\txt, ot := reflect.TypeOf(%s{}), reflect.TypeOf(origin.%s{})\n", gen, o.Name)
 		var want []string
@@ -341,13 +372,21 @@ func oracleC18(c c18Case) error {
 		{Dir: "origin", Name: "origin", Other: []modspec.File{{Name: "origin.go", Data: c.originSource()}}},
 		{Dir: "decl", Name: "decl", Other: []modspec.File{{Name: "decl.go", Data: c.declSource()}, {Name: "partial_test.go", Data: c.testSource()}}},
 	}}
+	if c.WithDeepCopy {
+		m.Pkgs[2].Other = append(m.Pkgs[2].Other, modspec.File{Name: "holder.go",
+			Data: "package decl\n\nimport \"m/third\"\n\n// +gengo:deepcopy\ntype Holder struct {\n\tC third.Cloner\n\tP *third.Cloner\n\tN int\n}\n"})
+	}
 	dir := tempModule(&m)
 	defer os.RemoveAll(dir)
 	describe := func() string {
 		gen, _ := os.ReadFile(filepath.Join(dir, "decl", "zz_generated.partialstruct.go"))
 		return fmt.Sprintf("--- origin ---\n%s\n--- decl ---\n%s\n--- generated ---\n%s", clip(c.originSource(), 2500), clip(c.declSource(), 1500), clip(string(gen), 3500))
 	}
-	res := mustRun(dir, []string{"./decl"}, []string{"partialstruct"}, nil)
+	gens := []string{"partialstruct"}
+	if c.WithDeepCopy {
+		gens = []string{"deepcopy", "partialstruct"}
+	}
+	res := mustRun(dir, []string{"./decl"}, gens, nil)
 	if res.Panic != "" {
 		return fmt.Errorf("the partialstruct generator panics: %s\n%s", clip(res.Panic, 600), describe())
 	}
@@ -444,6 +483,9 @@ func c18Features(c c18Case) []string {
 	}
 	if c.DotImport {
 		fs["dot-imported-origin"] = true
+	}
+	if c.WithDeepCopy {
+		fs["deepcopy-generator-in-the-same-run"] = true
 	}
 	out := make([]string, 0, len(fs))
 	for k := range fs {
